@@ -1185,6 +1185,58 @@ pub fn run_c03(ctx: &Ctx) -> Result<(), String> {
         }
         ctx.cov("time_zone_cases", json!({"zones": zones.iter().map(|z| z.0).collect::<Vec<_>>(), "runs": tcases.len()}));
     }
+    // (1b) -n k against the reference responder: the k requests form one batch, each gets its honest
+    // reply, and the replies are sent in request order or in reverse order (an honest responder owes
+    // no particular order across a client's requests)
+    {
+        let mut mcases = vec![];
+        for v in [Version::Classic, Version::Ietf13] {
+            for k in ctx.tier.pick(vec![2usize, 3], vec![2, 3, 4, 8]) {
+                for reversed in [false, true] {
+                    for key in [None, Some(false)] {
+                        mcases.push((v, k, reversed, key));
+                    }
+                }
+            }
+        }
+        par_for(mcases.len(), 2, |c, _| {
+            let (v, k, reversed, key) = mcases[c];
+            let proto = if v == Version::Classic { "0" } else { "13" };
+            let kstr = k.to_string();
+            let keyhex = key.map(|b| key_arg(b));
+            let mut args: Vec<&str> = vec!["-z", "-v", "-f", "%s %f", "-p", proto, "-t", "5", "-n", &kstr];
+            if let Some(kh) = &keyhex {
+                args.push("-k");
+                args.push(kh);
+            }
+            let stamp = Stamp::at(v, 1_790_000_000, 42);
+            crate::proc::REPLY_ORDER_REVERSED.with(|r| r.set(reversed));
+            let run = crate::proc::run_client(&args, k, |reqs| {
+                let batch: Vec<Vec<u8>> = reqs.iter().map(|r| r.0.clone()).collect();
+                (0..k).map(|i| vec![honest_parts(v, &s1(), &batch, i, stamp).datagram()]).collect()
+            });
+            crate::proc::REPLY_ORDER_REVERSED.with(|r| r.set(false));
+            let run = match run {
+                Ok(r) => r,
+                Err(e) => {
+                    *failed.lock().unwrap() = Some(e);
+                    return;
+                }
+            };
+            evals.fetch_add(1, Relaxed);
+            let times = printed_times(&run.exit.stdout);
+            let ok = run.exit.code == Some(0) && times.len() == k;
+            *classes.lock().unwrap().entry(format!("multi:{}:n{}:{}:{}", v.name(), k, if reversed { "reversed" } else { "in-order" }, if ok { "accepted" } else { "rejected" })).or_insert(0) += 1;
+            if !ok {
+                ctx.violation("honest-reply-rejected", if run.exit.stderr.contains("merkle") { "merkle" } else { "other" }, &format!("{}/n>=2/{}", v.name(), if reversed { "replies-in-reverse-order" } else { "replies-in-order" }),
+                    json!({"kind":"honest-multi","peer":"reference-responder","version":v.name(),"n":k,"replies_sent_in_reverse_order":reversed,"key":key.is_some(),"message":format!("{} of {} times printed", times.len(), k),"exit":run.exit.code,"stdout":run.exit.stdout.lines().take(8).collect::<Vec<_>>(),"stderr_first":run.exit.stderr.lines().filter(|l| l.contains("panicked") || l.contains("Nonce")).take(3).collect::<Vec<_>>()}));
+            }
+        });
+        if let Some(e) = failed.lock().unwrap().take() {
+            return Err(e);
+        }
+        ctx.cov("multi_request_runs", json!(mcases.len()));
+    }
     // (2) the real server binary as honest peer, -n k so requests really land in batches
     let real_n = crate::proc::c03_real_server_part(ctx, &classes)?;
     let mixed_n = crate::proc::c03_mixed_company_part(ctx, &classes)?;
@@ -1195,7 +1247,7 @@ pub fn run_c03(ctx: &Ctx) -> Result<(), String> {
     ctx.cov("outcome_classes", json!(*classes.lock().unwrap()));
     ctx.cov("exhaustive", json!(true));
     ctx.cov("bound", json!({"batch_shapes": shapes.len(), "midpoints": mids.len(), "real_server_runs": real_n}));
-    ctx.cov("rule", json!("each case = one execution of the real client against (1) the reference responder placing the client's request at position i of a batch of n (quick: all i for n in {1,2,3,5,8}, i in {0,31,63} for 64; thorough: all 2080 shapes n<=64) with a signed midpoint from {0, 1us, 1.999999s, 2^31-1, 2^31, now, year 2200, 9999-12-31T23:59:59.999999}, version x key option {none, hex, base64} x plain/JSON; classic replies also in the original layout without the NONC echo; the key spelled as lower/upper/mixed-case hex and base64; (2) the real server binary with -n k (batch sizes 64 and 3, 1 and 4 workers), and through a forwarding proxy that queues the client's requests on a stopped (SIGSTOP/SIGCONT) one-worker server together with a request of the other protocol and/or a junk datagram in front of, between or behind them, so that they share one batch. Oracle: exit 0, printed time == signed midpoint converted from the protocol unit (independent calendar conversion for the default format), verified=Yes iff a key was given, merkle_index == i. Local time: the client run under TZ in {UTC, JST-9, EST5, <+0545>-5:45, Asia/Tokyo, America/New_York} with and without -z at instants either side of the 2026 DST changes (including instants whose UTC calendar fields fall into New York's skipped and repeated hour): %s == midpoint and the calendar fields == midpoint + zone offset."));
+    ctx.cov("rule", json!("each case = one execution of the real client against (1) the reference responder placing the client's request at position i of a batch of n (quick: all i for n in {1,2,3,5,8}, i in {0,31,63} for 64; thorough: all 2080 shapes n<=64) with a signed midpoint from {0, 1us, 1.999999s, 2^31-1, 2^31, now, year 2200, 9999-12-31T23:59:59.999999}, version x key option {none, hex, base64} x plain/JSON; classic replies also in the original layout without the NONC echo; the key spelled as lower/upper/mixed-case hex and base64; (1b) -n k against the reference responder (the k requests one batch), replies sent in request order and in reverse order; (2) the real server binary with -n k (batch sizes 64 and 3, 1 and 4 workers), and through a forwarding proxy that queues the client's requests on a stopped (SIGSTOP/SIGCONT) one-worker server together with a request of the other protocol and/or a junk datagram in front of, between or behind them, so that they share one batch. Oracle: exit 0, printed time == signed midpoint converted from the protocol unit (independent calendar conversion for the default format), verified=Yes iff a key was given, merkle_index == i. Local time: the client run under TZ in {UTC, JST-9, EST5, <+0545>-5:45, Asia/Tokyo, America/New_York} with and without -z at instants either side of the 2026 DST changes (including instants whose UTC calendar fields fall into New York's skipped and repeated hour): %s == midpoint and the calendar fields == midpoint + zone offset."));
     ctx.sample(json!({"peer":"reference-responder","version":"ietf13","n":5,"i":3,"midpoint":[2147483648u64, 500000],"key":"hex"}));
     ctx.sample(json!({"peer":"real-server","version":"classic","n":8}));
     Ok(())
